@@ -50,19 +50,19 @@ def run(tier, seed):
             'nmeas': len(t.measurements), 'infeasible': t.infeasible,
             'md': sorted((str(ns), k, str(v)) for ns in t.metadata.namespaces() for k, v in t.metadata.abs_ns(ns).items())}
 
-  def make(deploy, url):
+  def make(deploy, url, recycle=datetime.timedelta(0)):
     holder = svc.Holder()
     fac = svc.Factory(holder)
     if deploy == 'local':
-      serv = vizier_service.VizierServicer(database_url=url, early_stop_recycle_period=datetime.timedelta(0))
+      serv = vizier_service.VizierServicer(database_url=url, early_stop_recycle_period=recycle)
       serv.default_pythia_service = pythia_service.PythiaServicer(serv, fac)
       return serv, holder, None
     cls = vizier_server.DefaultVizierServer if deploy == 'grpc' else vizier_server.DistributedPythiaVizierServer
-    server = cls(database_url=url, policy_factory=fac, early_stop_recycle_period=datetime.timedelta(0))
+    server = cls(database_url=url, policy_factory=fac, early_stop_recycle_period=recycle)
     return server.stub, holder, server
 
-  def run_program(deploy, url, prog):
-    service, holder, server = make(deploy, url)
+  def run_program(deploy, url, prog, recycle=datetime.timedelta(0)):
+    service, holder, server = make(deploy, url, recycle)
     sc = svc.study_config([(1, True), (2, False)])
     out = []
     try:
@@ -106,8 +106,9 @@ def run(tier, seed):
             v = clients.Trial(client, op[1]).stop()
           elif k == 'check_es':
             holder._default = op[2]
-            v = 'advisory'
-            clients.Trial(client, op[1]).check_early_stopping()
+            # sequential program, fixed recycle period: the answer is a function of the program (it is advisory only
+            # under concurrency)
+            v = bool(clients.Trial(client, op[1]).check_early_stopping())
           elif k == 'delete_trial':
             v = clients.Trial(client, op[1]).delete()
           elif k == 'add_trial':
@@ -234,7 +235,7 @@ def run(tier, seed):
       else:
         prog.append(('delete_study',))
       # the same call once more (a call that changes nothing the second time must be answered alike everywhere)
-      if prog and prog[-1][0] in ('set_state', 'stop', 'complete', 'delete_trial', 'md_study', 'md_trial', 'get_state', 'add_measurement') \
+      if prog and prog[-1][0] in ('set_state', 'stop', 'complete', 'delete_trial', 'md_study', 'md_trial', 'get_state', 'add_measurement', 'check_es') \
           and r.random() < (0.6 if prog[-1][0] == 'set_state' else 0.25):
         prog.append(prog[-1])
     if r.random() < 0.5:
@@ -250,7 +251,16 @@ def run(tier, seed):
   for pi in range(nprog):
     prog = gen_program(r, force_long=(pi == 0))
     url = None if r.random() < 0.5 else 'sqlite:///:memory:'
-    obs = {d: run_program(d, url, prog) for d in ('local', 'grpc', 'split')}
+    # early-stopping answers are recomputed on every check (period 0) or served from the stored operation (1 h)
+    recycle = datetime.timedelta(hours=1) if (pi % 3 == 1) else datetime.timedelta(0)
+    if pi % 6 == 1:
+      # repeated checks answered from the stored operation, of the checked trial and of another trial decided with it
+      a_, b_ = r.random() < 0.8, r.random() < 0.5
+      prog = [('suggest', 1, 2, ('deliver', [3, 4], [], [])), ('add_measurement', 1, [(1, 1)]),
+              ('check_es', 1, ('decide', [(1, a_), (2, b_)], [], [])), ('check_es', 1, ('decide', [(1, not a_)], [], [])),
+              ('check_es', 2, ('decide', [(2, not b_)], [], [])), ('list_trials',)] + prog
+    obs = {d: run_program(d, url, prog, recycle) for d in ('local', 'grpc', 'split')}
+    rep.count('recycle_period_1h' if recycle else 'recycle_period_0')
     has_err = any(o[0] == 'err' for o in obs['local'])
     rep.case({'program': [op[:3] for op in prog], 'local': [o[:2] for o in obs['local']][:6]}, has_err)
     for op in prog:
